@@ -269,10 +269,11 @@ func oneTx(t *tree) types.Transactions  { return types.Transactions{t.txNew} }
 func voteTx(t *tree) types.Transactions { return types.Transactions{t.txVote} }
 
 var candidates = map[string][]candidate{
-	"fresh":        {{"empty-on-head", "f", "d1", nil, false}, {"tx-on-head", "f", "d1", oneTx, false}},
-	"chain3":       {{"tx-on-head", "a2", "d0", oneTx, false}, {"empty-on-mid", "a1", "d0", nil, false}},
-	"forks":        {{"tx-on-short-fork", "b1", "d0", oneTx, false}, {"empty-on-head", "a2", "d0", nil, false}},
-	"after-stable": {{"tx-on-head", "a2", "d0", oneTx, false}},
+	"fresh":  {{"empty-on-head", "f", "d1", nil, false}, {"tx-on-head", "f", "d1", oneTx, false}},
+	"chain3": {{"tx-on-head", "a2", "d0", oneTx, false}, {"empty-on-mid", "a1", "d0", nil, false}},
+	"forks":  {{"tx-on-short-fork", "b1", "d0", oneTx, false}, {"empty-on-head", "a2", "d0", nil, false}},
+	// (b1's twin: a valid child of f at the height of the stable block a1 — finality makes the node ignore it)
+	"after-stable": {{"tx-on-head", "a2", "d0", oneTx, false}, {"sibling-of-stable-block", "f", "d2", nil, false}},
 	"pruned-fork":  {{"tx-on-pruned-fork", "b1", "d0", oneTx, false}, {"tx-on-stable-head", "a1", "d2", oneTx, false}},
 	"pre-snapshot": {{"snapshot-empty", "s4", "d1", nil, false}, {"snapshot-tx", "s4", "d1", oneTx, true},
 		{"snapshot-with-vote-for-rank2", "s4", "d1", voteTx, true}},
